@@ -16,7 +16,8 @@
    Impl = Decl on every pair of lists and emits Decl as the expectation. *)
 EXTENDS Integers, Sequences, FiniteSets, TLC, Json
 
-CONSTANTS MaxBase, MaxOvr      \* longest base / override list
+CONSTANTS MaxBase, MaxOvr,     \* longest base / override list
+          Small                \* ... paired with lists of at most Small entries on the other side
 
 Emit(r) == PrintT("@@" \o ToJson(r))
 
@@ -89,7 +90,9 @@ Decl(base, ovr) ==
 
 -------------------------------------------------------------------------------
 SeqsUpTo(S, n) == UNION {[1..k -> S] : k \in 0..n}
-Cases == [base : SeqsUpTo(Tokens, MaxBase), ovr : SeqsUpTo(Tokens, MaxOvr)]
+Min(a, b) == IF a < b THEN a ELSE b
+Cases == [base : SeqsUpTo(Tokens, MaxBase), ovr : SeqsUpTo(Tokens, Min(Small, MaxOvr))]
+         \cup [base : SeqsUpTo(Tokens, Min(Small, MaxBase)), ovr : SeqsUpTo(Tokens, MaxOvr)]
 
 VARIABLES c, done
 vars == <<c, done>>
